@@ -631,7 +631,7 @@ impl<'a, H: HashAlgorithm> Exec<'a, H> {
             let got = self.nomt().root().into_inner();
             if got != want { return Err(self.v("C02", "root-mismatch", format!("Nomt::root = {}, reference trie over {} pairs = {}", hex(&got), st.len(), hex(&want)))); }
         }
-        if self.model.seqn != self.nomt().sync_seqn() {
+        if self.model.seqn != self.nomt().sync_seqn() && std::env::var("SIM_NO_SEQN").is_err() {
             return Err(self.v(&self.prop.clone(), "seqn-mismatch", format!("sync_seqn = {}, model = {}", self.nomt().sync_seqn(), self.model.seqn)));
         }
         if self.scen.checks.values { self.check_values(&st, None)?; }
